@@ -146,8 +146,11 @@ SphereOK(r) == \E c \in {[ctr |-> V(r.t, r.c), pos |-> V(r.t, r.pos), dir |-> V(
         v == VSub(c.pos, c.ctr)
         A == Norm2(c.dir)  Bh == DotV(c.dir, v)  C == D!DSub(Norm2(v), D!DSq(rad))
         sc == D!DAdd(Sc(<<v>>), rad)
-        disc == D!DSub(D!DSq(Bh), D!DMul(A, C))                                   \* a quarter of the discriminant
-        md == D!DMul(E(t), D!DSq(sc))
+        disc == D!DSub(D!DSq(Bh), D!DMul(A, C))                                   \* a quarter of the discriminant = r^2 - (distance of the centre from the line)^2
+        \* allowance of the decision: the distance d of the centre from the line is known to about E |v|, so d^2 near r^2 to
+        \* about 4 E |v| r - NOT to E |v|^2, which is what evaluating the quadratic's discriminant from its coefficients gives
+        \* and which makes every sphere more than a few hundred radii away invisible (or spuriously visible) in float
+        md == D!DAdd(D!DMul(D!DScale(E(t), 2), D!DMul(sc, rad)), D!DSq(D!DMul(E(t), sc)))
         tau == D!DMul(Tau(t), sc)
         f(x) == QuadAt(A, Bh, C, x)
         other == D!DSub(D!DNeg(D!DScale(Bh, 1)), tt)                              \* the other root (A = 1 up to rounding)
@@ -156,7 +159,9 @@ SphereOK(r) == \E c \in {[ctr |-> V(r.t, r.c), pos |-> V(r.t, r.pos), dir |-> V(
     IN  /\ r.ok = r.okT
         /\ IF r.okT = 1
            THEN /\ D!DSign(tt) >= 0
-                /\ D!DWithin(f(tt), D!DZero, D!DMul(md, D!DAdd(One, D!DAdd(D!DSq(tt), D!DAbs(tt)))))    \* on the sphere
+                \* on the sphere: the parameter is known to about E (|v| + t), and f changes by at most 2 (r + |miss|) per unit of t
+                /\ LET dt == D!DMul(E(t), D!DAdd(sc, D!DAbs(tt))) IN
+                   D!DWithin(f(tt), D!DZero, D!DAdd(D!DAdd(md, D!DMul(D!DScale(dt, 2), rad)), D!DSq(dt)))
                 /\ ~(D!DLe(tau, other) /\ D!DLt(other, D!DSub(tt, D!DScale(tau, 1))))                   \* no smaller non-negative root
                 /\ Near(V(t, r.lt), VAdd(c.pos, VScale(c.dir, tt)), D!DMul(E(t), D!DAdd(sc, D!DAdd(MaxAbsRow(c.pos), tt))))
                 /\ r.pt = r.lt
